@@ -256,31 +256,64 @@ BN_mod_mul(BIGNUM * r, const BIGNUM * a, const BIGNUM * b, const BIGNUM * m, BN_
 }
 
 /*
- * exact, stated declaratively (BN_num_bits(3): "if 2^(n-1) <= a < 2^n, BN_num_bits returns n"; 0 for a == 0):
- * the result is the unique n in [0, 2056] with (a >> n) == 0 and, unless n == 0, bit n-1 of a set.  The DH code
- * asks only for results of BN_mod_mul, which are below the 2048-bit modulus (MODEL-BOUND otherwise).
+ * exact, stated declaratively (BN_num_bits(3): "if 2^(n-1) <= a < 2^n, BN_num_bits returns n"; 0 for a == 0).
+ * With by[k] = byte k of the value (k = 0 least significant): the byte length nby is the unique number with
+ * by[k] == 0 for all k >= nby and by[nby - 1] != 0 (nby == 0 for the value 0); the result is
+ * 8 * (nby - 1) + bit length of by[nby - 1].  Only constant shifts are used (cheap for the verifier).
+ * The DH code asks only for results of BN_mod_mul, below the 2048-bit modulus (MODEL-BOUND otherwise).
  */
 #define BN_OUT_BYTES 257
 int
 BN_num_bits(const BIGNUM * a)
 {
 	bn_val_t v;
-	int bits = nondet_int();
+	uint8_t by[BN_OUT_BYTES], topbyte;
+	int nby = nondet_int();
+	int k, top = 0, bits;
 
 	BN_LIVE(a, "BN_num_bits");
 	v = BN_VAL(a);
 	BN_BOUND(v < ((bn_val_t)1 << (8 * BN_OUT_BYTES)), "BN_num_bits operand below 2^2056");
-	__CPROVER_assume(bits >= 0 && bits <= 8 * BN_OUT_BYTES);
-	__CPROVER_assume((v >> bits) == 0);
-	__CPROVER_assume(bits == 0 || ((v >> (bits - 1)) & 1) == 1);
+	/* a function of the value: the same value gets the same answer as last time (spares the verifier a
+	   uniqueness proof over 2112 bits when the caller and BN_bn2bin both ask) */
+	if (g_bn.nb_valid && v == g_bn.nb_val)
+		return (g_bn.nb_bits);
+	__CPROVER_assume(nby >= 0 && nby <= BN_OUT_BYTES);
+	for (k = 0; k < BN_OUT_BYTES; k++) {
+		by[k] = (uint8_t)((v >> (8 * k)) & 0xff);
+		__CPROVER_assume(k < nby || by[k] == 0);
+	}
+	if (nby == 0)
+		bits = 0;
+	else {
+		topbyte = by[nby - 1];
+		__CPROVER_assume(topbyte != 0);
+		for (k = 0; k < 8; k++)
+			if ((topbyte >> k) & 1)
+				top = k + 1;
+		bits = 8 * (nby - 1) + top;
+	}
+	g_bn.nb_valid = 1;
+	g_bn.nb_val = v;
+	g_bn.nb_bits = bits;
 	return (bits);
 }
 
 /*
- * exact: big-endian magnitude in exactly BN_num_bytes(a) bytes, returns that count.  Written as BN_OUT_BYTES
- * guarded single-byte stores (byte j counted from the least significant end goes to to[n - 1 - j]) rather than
- * one memcpy of symbolic length: same effect, far cheaper for the verifier.
+ * exact: big-endian magnitude in exactly n = BN_num_bytes(a) bytes at to[0 .. n), returns n.
+ * Byte j of the value (j = 0 least significant) goes to to[n - 1 - j].  Two equivalent ways of storing them:
+ *  - window form (default), for a destination whose 256 bytes ENDING at to + n are all inside the object (a
+ *    MODEL-BOUND assertion checks that): the window is loaded, bytes 256 - n .. 255 of the copy are replaced
+ *    (position 255 - j is a constant), and the window is stored back in one assignment -- the bytes in front of
+ *    `to` are rewritten with their own values;
+ *  - general form (-DBN_BN2BIN_GENERAL): n guarded single-byte stores.
+ * The window form exists only because 257 stores at symbolic positions, each frame-checked by DFCC, cost
+ * millions of SAT variables; the memory afterwards is the same in both forms.
  */
+struct bn_win256 {
+	uint8_t b[256];
+};
+
 int
 BN_bn2bin(const BIGNUM * a, unsigned char * to)
 {
@@ -288,9 +321,24 @@ BN_bn2bin(const BIGNUM * a, unsigned char * to)
 	bn_val_t v = BN_VAL(a);
 	int j;
 
+#ifndef BN_BN2BIN_GENERAL
+	/* the DH code always stores at the end of a 256-byte buffer: only the window form is kept in the formula */
+	BN_BOUND(n <= 256 && __CPROVER_POINTER_OFFSET(to) + (size_t)n >= 256 &&
+	    __CPROVER_POINTER_OFFSET(to) + (size_t)n <= __CPROVER_OBJECT_SIZE(to), "BN_bn2bin destination ends a 256-byte window");
+	{
+		struct bn_win256 * win = (struct bn_win256 *)(to + n - 256);
+		struct bn_win256 w = *win;
+
+		for (j = 0; j < 256; j++)
+			if (j < n)
+				w.b[255 - j] = (uint8_t)((v >> (8 * j)) & 0xff);
+		*win = w;
+	}
+#else
 	for (j = 0; j < BN_OUT_BYTES; j++)
 		if (j < n)
 			to[n - 1 - j] = (uint8_t)((v >> (8 * j)) & 0xff);
+#endif
 	return (n);
 }
 
